@@ -28,7 +28,7 @@
      A RawMessage that is not valid JSON makes Encode fail: not modelled (the daemon cannot build one).
    - the values of the `any`-typed Extra maps are strings, string arrays and aucoalesce.Object structs: the
      only ones the daemon stores. *)
-From Coq Require Import Ascii String List Bool Arith NArith.
+From Coq Require Import Ascii String List Bool Arith NArith Permutation.
 Import ListNotations.
 From AM Require Import Lib.Bytes.
 Open Scope N_scope.
@@ -373,6 +373,177 @@ Definition dec_string (s : str) : option str :=
   match dec_string_prefix s with
   | Some (d, []) => Some d
   | _ => None
+  end.
+
+(* ---------- a reader of the line: recursive-descent parser for the JSON the events are made of ----------
+   Strings, null, arrays and objects, without insignificant white space (the encoder writes none).  true / false /
+   numbers do not occur in the daemon's events and are rejected.  The fuel bounds the number of nested calls; one more
+   than twice the length of the text always suffices (Proofs/JsonParseLemmas.v: [PFuel] is never returned then). *)
+
+Inductive pres (A : Type) :=
+| POk (a : A) (rest : str)      (* parsed a; rest = the text after it *)
+| PErr                          (* not the expected syntax *)
+| PFuel.                        (* artefact of the fuel; proved never to be returned by [parse] *)
+Arguments POk {A} a rest.
+Arguments PErr {A}.
+Arguments PFuel {A}.
+
+Fixpoint parse_value (fuel : nat) (s : str) : pres jval :=
+  match fuel with
+  | O => PFuel
+  | S f =>
+    match s with
+    | [] => PErr
+    | c :: r =>
+      let n := nb c in
+      if n =? 0x22 then                                              (* a string *)
+        match dec_chars None r with Some (d, rest) => POk (JStr d) rest | None => PErr end
+      else if n =? 0x6E then                                         (* null *)
+        match strip_prefix (s2l "ull") r with Some rest => POk JNull rest | None => PErr end
+      else if n =? 0x5B then                                         (* [ *)
+        match r with
+        | [] => PErr
+        | c' :: r' =>
+          if nb c' =? 0x5D then POk (JArr []) r'
+          else match parse_elems f r with POk vs rest => POk (JArr vs) rest | PErr => PErr | PFuel => PFuel end
+        end
+      else if n =? 0x7B then                                         (* { *)
+        match r with
+        | [] => PErr
+        | c' :: r' =>
+          if nb c' =? 0x7D then POk (JObj []) r'
+          else match parse_members f r with POk ms rest => POk (JObj ms) rest | PErr => PErr | PFuel => PFuel end
+        end
+      else PErr
+    end
+  end
+with parse_elems (fuel : nat) (s : str) : pres (list jval) :=         (* value ( , value )* ] *)
+  match fuel with
+  | O => PFuel
+  | S f =>
+    match parse_value f s with
+    | POk v rest =>
+      match rest with
+      | [] => PErr
+      | c :: r =>
+        if nb c =? 0x2C then
+          match parse_elems f r with POk vs rest' => POk (v :: vs) rest' | PErr => PErr | PFuel => PFuel end
+        else if nb c =? 0x5D then POk [v] r
+        else PErr
+      end
+    | PErr => PErr
+    | PFuel => PFuel
+    end
+  end
+with parse_members (fuel : nat) (s : str) : pres (list (str * jval)) :=   (* string : value ( , string : value )* } *)
+  match fuel with
+  | O => PFuel
+  | S f =>
+    match s with
+    | [] => PErr
+    | c :: r =>
+      if nb c =? 0x22 then
+        match dec_chars None r with
+        | None => PErr
+        | Some (k, rest) =>
+          match rest with
+          | [] => PErr
+          | c1 :: r1 =>
+            if nb c1 =? 0x3A then
+              match parse_value f r1 with
+              | POk v rest2 =>
+                match rest2 with
+                | [] => PErr
+                | c2 :: r2 =>
+                  if nb c2 =? 0x2C then
+                    match parse_members f r2 with
+                    | POk ms rest3 => POk ((k, v) :: ms) rest3 | PErr => PErr | PFuel => PFuel
+                    end
+                  else if nb c2 =? 0x7D then POk [(k, v)] r2
+                  else PErr
+                end
+              | PErr => PErr
+              | PFuel => PFuel
+              end
+            else PErr
+          end
+        end
+      else PErr
+    end
+  end.
+
+(* the whole text is one value *)
+Definition parse (s : str) : pres jval := parse_value (S (2 * length s)) s.
+
+(* what a reader sees of a value: strings and keys sanitised; a verbatim text that is a plain string literal
+   (the time) as that string *)
+Definition plainb (c : ascii) : bool := (0x20 <=? nb c) && negb (nb c =? 0x22) && negb (nb c =? 0x5C).
+Definition txt_body (t : str) : str := removelast (tl t).
+
+Fixpoint norm (v : jval) : jval :=
+  match v with
+  | JStr s => JStr (sanitize s)
+  | JTxt t => JStr (txt_body t)
+  | JNull => JNull
+  | JArr l => JArr (map norm l)
+  | JObj m => JObj (map (fun kv => (sanitize (fst kv), norm (snd kv))) m)
+  end.
+
+(* every verbatim text inside the value is a string literal without escapes *)
+Fixpoint readable (v : jval) : bool :=
+  match v with
+  | JTxt t => seqb t (dq :: txt_body t ++ [dq]) && forallb plainb (txt_body t)
+  | JArr l => forallb readable l
+  | JObj m => forallb (fun kv => readable (snd kv)) m
+  | _ => true
+  end.
+
+Definition event_readable (e : jevent) : bool :=
+  time_text_ok (je_logged_at e)
+  && forallb (fun kv => readable (snd kv)) (je_meta_extra e)
+  && forallb (fun kv => readable (snd kv)) (je_src_extra e)
+  && match je_data e with None => true | Some d => readable d end.
+
+(* what a reader of an event's line gets: the members in the fixed order of the struct, every string sanitised *)
+Definition reader_view (e : jevent) : jval :=
+  JObj ([ fld "metadata" (JObj (fld "auditId" (JStr (sanitize (je_audit_id e)))
+                               :: omit_if (is_nil (je_meta_extra e)) "extra" (norm (jmap (je_meta_extra e)))));
+          fld "type" (JStr (sanitize (je_type e)));
+          fld "loggedAt" (JStr (je_logged_at e));
+          fld "source" (JObj (fld "type" (JStr (sanitize (je_src_type e))) :: fld "value" (JStr (sanitize (je_src_value e)))
+                             :: omit_if (is_nil (je_src_extra e)) "extra" (norm (jmap (je_src_extra e)))));
+          fld "outcome" (JStr (sanitize (je_outcome e)));
+          fld "subjects" (match je_subjects e with None => JNull | Some m => norm (jstr_map m) end);
+          fld "component" (JStr (sanitize (je_component e))) ]
+        ++ omit_if (is_nil (je_target e)) "target" (norm (jstr_map (je_target e)))
+        ++ match je_data e with None => [] | Some d => [fld "data" (norm d)] end).
+
+(* ---------- notions used in the statements about the encoding ---------- *)
+
+(* from 0x20 on, and never a raw  &  <  >  *)
+Definition out_byte_ok (c : ascii) : bool :=
+  (0x20 <=? nb c) && negb (nb c =? 0x26) && negb (nb c =? 0x3C) && negb (nb c =? 0x3E).
+
+(* the order of the keys of a written map *)
+Definition klt {V} (a b : str * V) : Prop := str_ltb (fst a) (fst b) = true.
+
+(* a Go map has distinct keys *)
+Definition keys_distinct (e : jevent) : Prop :=
+  NoDup (map fst (je_meta_extra e)) /\ NoDup (map fst (je_src_extra e)) /\ NoDup (map fst (je_target e)) /\
+  match je_subjects e with Some m => NoDup (map fst m) | None => True end.
+
+
+(* the same Go value: scalar fields equal, every map holding the same entries (listed in any order) *)
+Definition same_event (e1 e2 : jevent) : Prop :=
+  je_audit_id e1 = je_audit_id e2 /\ je_type e1 = je_type e2 /\ je_logged_at e1 = je_logged_at e2 /\
+  je_src_type e1 = je_src_type e2 /\ je_src_value e1 = je_src_value e2 /\ je_outcome e1 = je_outcome e2 /\
+  je_component e1 = je_component e2 /\ je_data e1 = je_data e2 /\
+  Permutation (je_meta_extra e1) (je_meta_extra e2) /\ Permutation (je_src_extra e1) (je_src_extra e2) /\
+  Permutation (je_target e1) (je_target e2) /\
+  match je_subjects e1, je_subjects e2 with
+  | Some m1, Some m2 => Permutation m1 m2
+  | None, None => True
+  | _, _ => False
   end.
 
 (* ---------- which JSON the models' event records stand for ---------- *)
